@@ -14,4 +14,11 @@ inductive Conforms : List Item → List Got → Prop where
       (∀ g ∈ blk, g.item = e.item ∧ e.formOk g = true) → e.lo ≤ blk.length → blk.length ≤ e.hi →
       Conforms es rest → Conforms (e :: es) (blk ++ rest)
 
+/-- The severity a logging function is named after: `Info` and `Infof` → `InfoLevel`, … (the name without a
+    trailing `f`, followed by `Level`). What `fastcheck`, `log()` and `tracer.log()` have to be called with inside
+    that function. -/
+def ownSeverity (f : String) : String :=
+  let cs := f.toList
+  String.ofList ((if cs.getLast? = some 'f' then cs.dropLast else cs) ++ "Level".toList)
+
 end PB.Log
